@@ -35,6 +35,15 @@ CHECKS['C14'] = dict(
     design_ref='DESIGN.md section 4 C14',
     note='struct packers modelled as fixed-width encoders; string operations uninterpreted here (byte forms are C01); '
          'DNSNsec.write assumed to keep the size bookkeeping (bytearray bit operations outside the engine); sections < 65536 entries')
+CHECKS['C16'] = dict(
+    text='_process_datagram_at_time is verified for all listener states and datagrams: when the stored bytes equal the new '
+         'ones, less than 1000 ms have passed and the stored message has no QU question, NO heap location changes and no '
+         'callee runs (frame obligation over every field, ghost logs included); otherwise bytes, time and a fresh message '
+         'object are recorded. Two lemmas give the pairwise statement (second copy within the window is suppressed; '
+         'suppression is stable). A static scan shows no other code writes the bookkeeping fields.',
+    design_ref='DESIGN.md section 4 C16',
+    note='decoder abstracted (fresh message object, arbitrary valid/flags/QU bit); callees after the guard abstracted by '
+         'arbitrary effects; QU datagrams (exempted by the statement) not claimed; 2-tuple address form')
 NOT_APPLICABLE = {
     'C07': 'end-to-end liveness over several hosts and lossy delivery: no per-function contract can express it '
            '(DESIGN.md section 6)',
